@@ -79,14 +79,15 @@ def programs():
     prelude = []
     for t in TYS:
         prelude += ["@guppy", f"def g_{t}(x: {t}) -> {t}:", "    return x",
+                    "@guppy", f"def g2_{t}(b: bool, x: {t}) -> {t}:", "    return x",
                     "@guppy", f"def h_{t}() -> {t}:", f"    x: {t} = {LIT[t]}", "    return x"]
     cases = []
 
-    def add(pos, a, e, body, params, ret, operand="a0", act=None):
+    def add(pos, a, e, body, params, ret, operand="a0", act=None, variant=""):
         i = len(cases)
         fn = f"f{i}"
         src = ["@guppy", f"def {fn}({params}) -> {ret}:"] + ["    " + b for b in body]
-        cases.append({"id": f"{pos}:{a}:{e}", "pos": pos, "act": act or a, "exp": e, "fn": fn, "src": src,
+        cases.append({"id": f"{pos}{variant}:{a}:{e}", "pos": pos, "act": act or a, "exp": e, "fn": fn, "src": src,
                       "operand": operand, "label_act": a})
 
     for a in TYS:
@@ -94,6 +95,9 @@ def programs():
             add("PAnnAssign", a, e, [f"x: {e} = a0", "return x"], f"a0: {a}", e)
             add("PArgument", a, e, [f"return g_{e}(a0)"], f"a0: {a}", e)
             add("PReturn", a, e, ["return a0"], f"a0: {a}", e)
+            add("PArgument", a, e, [f"return g2_{e}(True, a0)"], f"a0: {a}", e, variant="2")
+            add("PTupleElem", a, e, ["return ((True, a0), False)"], f"a0: {a}", f"tuple[tuple[bool, {e}], bool]", variant="Nested")
+            add("PAnnAssign", a, e, [f"y = a0", f"x: {e} = y", "z = x", "return z"], f"a0: {a}", e, variant="Var")
             meth = "__and__" if e == "bool" else "__add__"
             add("PMethodOperand", a, e, [f"return a1.{meth}(a0)"], f"a0: {a}, a1: {e}", e)
             add("PTupleElem", a, e, ["return (a0, True)"], f"a0: {a}", f"tuple[{e}, bool]")
@@ -107,7 +111,8 @@ def programs():
     for a in KIND:
         for b in KIND:
             wide = a if KIND[a] >= KIND[b] else b
-            for opn, sym, ret in (("Add", "+", wide), ("Lt", "<", "bool")):
+            for opn, sym, ret in (("Add", "+", wide), ("Lt", "<", "bool"), ("Sub", "-", wide), ("Mult", "*", wide),
+                                  ("Eq", "==", "bool"), ("GtE", ">=", "bool")):
                 i = len(cases)
                 cases.append({"id": f"Bin{opn}:{a}:{b}", "pos": "Bin", "act": a, "exp": b, "wide": wide, "fn": f"f{i}",
                               "src": ["@guppy", f"def f{i}(a0: {a}, a1: {b}) -> {ret}:", f"    return a0 {sym} a1"],
@@ -158,13 +163,26 @@ def impl_chain(case, rec):
         if len(args) != 2 or args[0] != "a1":
             return None, f"unexpected tree {t}"
         t = args[1]
-    chain, leaf = unwrap_chain(t)
-    if chain is None:
-        return None, f"unexpected tree {t}"
     want_leaf = "a0" if case["operand"] == "a0" else "const:"
-    if not leaf.startswith(want_leaf):
-        return None, f"unexpected leaf {leaf} in {t}"
-    return chain, leaf
+    parts = []
+
+    def flat(x):
+        x = x.strip()
+        if x.startswith("tuple(") and x.endswith(")"):
+            for y in split_top(x[6:-1]):
+                flat(y)
+        else:
+            parts.append(x)
+    for x in ([t] if case["pos"] == "PMethodOperand" else trees):
+        flat(x)
+    cands = []
+    for x in parts:
+        chain, leaf = unwrap_chain(x)
+        if chain is not None and leaf.startswith(want_leaf) and (want_leaf == "const:" or not leaf.startswith("const:?")):
+            cands.append((chain, leaf))
+    if len(cands) != 1:
+        return None, f"operand {want_leaf} not found exactly once in {trees}"
+    return cands[0]
 
 
 def bin_chains(rec):
